@@ -544,8 +544,9 @@ type c03Explorer struct {
 	nHist, nPoints, nImg1, nImg1Distinct, nImg2, nImg2Distinct           atomic.Int64
 	nRepair, nEOF, nNotExist, nHkRemovals, nSkipped2                     atomic.Int64
 	nTornImages, nInsideOp, nNonExhaustiveTear, nMultiUnsynced, nZeroImg atomic.Int64
-	stop                                                                 atomic.Bool // budget used up
-	windows                                                              sync.Map    // "lo..hi" of live segment indexes with hi >= 9
+	stop                                                                 atomic.Bool  // budget used up
+	windows                                                              sync.Map     // "lo..hi" of live segment indexes with hi >= 9
+	nBigTail, nBigNonTail                                                atomic.Int64 // crash points with a >= 2 MiB segment as tail / as non-tail segment
 	sampleMu                                                             sync.Mutex
 	nSamples                                                             map[string]int
 }
@@ -632,6 +633,15 @@ func (e *c03Explorer) noteWindow(st *crashfs.State) {
 	if hi >= 9 {
 		e.windows.Store(fmt.Sprintf("%d..%d", lo, hi), true)
 	}
+	for i := range st.Files { // where does a record of about configWALFileLimit sit?
+		if len(st.Files[i].Data) >= configWALFileLimit-1 && strings.HasPrefix(st.Files[i].Path, c03FilePrefix) {
+			if st.Files[i].Path == c03SegPath(hi) {
+				e.nBigTail.Add(1)
+			} else {
+				e.nBigNonTail.Add(1)
+			}
+		}
+	}
 }
 
 // c03LongHistories: directed long histories (the exhaustive phases never get
@@ -691,6 +701,36 @@ func c03LongHistories(thorough bool) [][]c03Op {
 			}
 		}
 	}
+	return out
+}
+
+// c03BigHistories: histories with exactly ONE record whose size is derived from
+// wal.go's own constant configWALFileLimit (2 MiB): every sequence of length
+// 0..maxLen over {W5, Sync, Shift, HkLate} with the big record inserted at
+// every position. The family runs with FileLimit = configWALFileLimit and
+// TotalLimit = 4 x that (the defaults of wal.go), so housekeeping rotates a
+// segment that holds the big record and deletes nothing; the big record ends
+// up in the tail, or in a non-tail segment with a small or empty tail.
+func c03BigHistories(big c03Op, maxLen int) [][]c03Op {
+	small := []c03Op{c03W5, c03Sync, c03Shift, c03HkLate}
+	var out [][]c03Op
+	var rec func(prefix []c03Op)
+	rec = func(prefix []c03Op) {
+		for pos := 0; pos <= len(prefix); pos++ {
+			h := make([]c03Op, 0, len(prefix)+1)
+			h = append(h, prefix[:pos]...)
+			h = append(h, big)
+			h = append(h, prefix[pos:]...)
+			out = append(out, h)
+		}
+		if len(prefix) == maxLen {
+			return
+		}
+		for _, o := range small {
+			rec(append(append([]c03Op(nil), prefix...), o))
+		}
+	}
+	rec(nil)
 	return out
 }
 
@@ -766,6 +806,9 @@ func (e *c03Explorer) exploreImage1(w *c03Worker, h *c03Hist, opNames []string, 
 	for _, a := range h.app {
 		fmt.Fprintf(&lens, "%d,", len(a))
 	}
+	if torn || k1 != h.logLen {
+		e.r.Nontrivial(ikey) // before the dedup: which history reaches an image first must not matter
+	}
 	for vi, ap := range e.append1 {
 		if !e.seen1.add(fmt.Sprintf("%s|%d|%d|%s|%d", ikey, floor, synced, lens.String(), vi)) {
 			continue
@@ -780,7 +823,6 @@ func (e *c03Explorer) exploreImage1(w *c03Worker, h *c03Hist, opNames []string, 
 		shape := cy.shape
 		if torn || k1 != h.logLen {
 			e.nTornImages.Add(1)
-			e.r.Nontrivial(ikey)
 		}
 		if kind, _ := c03Match(h.app, floor, synced, cy.rec.recs); kind != "" && cy.rec.err == nil && cy.rec.panicTxt == "" {
 			cy.viol = append([]c03Viol{{kind, fmt.Sprintf("appended %s, durable for sure: #%d..#%d, deleted by housekeeping: first %d; recovery returned %s (%s)",
@@ -986,8 +1028,10 @@ func TestVerifC03(t *testing.T) {
 		minDepth, maxDepth int
 	}
 	dFull, dRed := r.Pick(4, 6), r.Pick(5, 7)
-	phases := []phase{{"full", full, 0, dFull}, {"reduced", reduced, dRed, dRed}}
-	phaseDesc := fmt.Sprintf("every sequence of length 0..%d over %v, and every sequence of length %d over %v", dFull, full, dRed, reduced)
+	limitSized := []c03Op{c03W19, c03W20, c03W21, c03W41, c03W5, c03Sync, c03Shift, c03HkSoon, c03HkLate}
+	dLim := r.Pick(3, 4)
+	phases := []phase{{"full", full, 0, dFull}, {"reduced", reduced, dRed, dRed}, {"limit-sized-records", limitSized, 1, dLim}}
+	phaseDesc := fmt.Sprintf("every sequence of length 0..%d over %v, every sequence of length %d over %v, and every sequence of length 1..%d over %v (record sizes FileLimit-1, FileLimit, FileLimit+1, 2xFileLimit+1)", dFull, full, dRed, reduced, dLim, limitSized)
 	e.append1 = [][]int{{5, 1}}
 	if r.Thorough() {
 		e.append1 = [][]int{{5, 1}, {0, 4100}}
@@ -1001,6 +1045,7 @@ func TestVerifC03(t *testing.T) {
 		"crash images: per file with an un-synced suffix every surviving length if the suffix is <= 64 bytes, else lengths {0,1,len-1,len} and b-1,b,b+1,b+7,b+8,b+9 around every record / write-call boundary b; "+
 		"plus the zero-filled-payload-tail family: for each such length whose last byte lies in the payload of a record with an intact un-synced header, the last z in {1, half, all} surviving payload bytes read as zeros (never a header byte); "+
 		"plus the long-rotation family: directed histories with 9..13 (thorough: 100, 101) rotations, segments of differing sizes, optionally a housekeeping call that deletes head segments (live windows 0..9 .. 0..13, 7..11-like, thorough 9x..101), ending in a torn first / second record of the last segment or a torn record behind an empty middle segment, each with its two shorter prefixes, all crash points of the last operation; "+
+		"plus the big-record family: every sequence of length 0..2 (thorough 3) over {W5,Sync,Shift,HkLate} with ONE record of configWALFileLimit+1 bytes (the 2 MiB constant of wal.go) inserted at every position, and the same with length 0..1 (2) for configWALFileLimit-1, configWALFileLimit and 2xconfigWALFileLimit+1, run with FileLimit=configWALFileLimit and TotalLimit=4x (first generation only; thorough: both generations for 12 directed histories); "+
 		"per image: recovery as in applyRoundWAL, append records of lengths %v (one run per variant), Sync, Close, read back; then every crash point x torn length of that cycle, second recovery, append %v, read back. "+
 		"evaluations = crash images recovered (both generations); distinct_nontrivial = distinct images with a torn (partially surviving) un-synced suffix or taken inside an operation",
 		phaseDesc, c03Cfg.FileLimit, c03Cfg.TotalLimit, e.append1, e.append2))
@@ -1027,6 +1072,7 @@ func TestVerifC03(t *testing.T) {
 	e.selfTest(w)
 	c03Workers <- w
 
+	tStart := time.Now()
 	// enumerate histories phase by phase, depth by depth, so that a budget cap
 	// leaves whole depths covered
 	var completed []string
@@ -1069,6 +1115,7 @@ func TestVerifC03(t *testing.T) {
 		}
 	}
 
+	tPhases := time.Now()
 	// long-rotation family
 	long := c03LongHistories(r.Thorough())
 	if allDone && !r.Expired() {
@@ -1091,6 +1138,59 @@ func TestVerifC03(t *testing.T) {
 	} else {
 		allDone = false
 	}
+	tLong := time.Now()
+	// big-record family: one record of about configWALFileLimit (the 2 MiB constant of wal.go)
+	if allDone && !r.Expired() {
+		saved, savedSecond := c03Cfg, e.second
+		c03Cfg.FileLimit, c03Cfg.TotalLimit = configWALFileLimit, 4*configWALFileLimit
+		var big [][]c03Op
+		big = append(big, c03BigHistories(c03WBigP1, r.Pick(2, 3))...)
+		for _, o := range []c03Op{c03WBigM1, c03WBig, c03WBig2P1} {
+			big = append(big, c03BigHistories(o, r.Pick(1, 2))...)
+		}
+		histBefore, imgBefore := e.nHist.Load(), e.nImg1.Load()+e.nImg2.Load()
+		e.second = false // first generation only: a second one over 2..4 MiB images is too dear (thorough: the directed subset below)
+		run := func(hs [][]c03Op) {
+			ev.Par(len(hs), 16, func(i int) {
+				if e.stop.Load() || (i%8 == 0 && r.Expired()) {
+					e.stop.Store(true)
+					return
+				}
+				w := <-c03Workers
+				defer func() { c03Workers <- w }()
+				e.exploreHistory(w, hs[i])
+			})
+		}
+		run(big)
+		if r.Thorough() && !e.stop.Load() {
+			// both generations for the histories that put the big record into a non-tail segment behind a small tail
+			e.second = true
+			var directed [][]c03Op
+			for _, o := range []c03Op{c03WBigM1, c03WBig, c03WBigP1, c03WBig2P1} {
+				directed = append(directed,
+					[]c03Op{c03W5, o, c03Shift, c03W5, c03Sync},
+					[]c03Op{c03W5, o, c03HkLate, c03W5, c03Sync},
+					[]c03Op{c03W5, c03Sync, o, c03Sync})
+			}
+			run(directed)
+		}
+		c03Cfg, e.second = saved, savedSecond
+		if e.stop.Load() {
+			allDone = false
+		} else {
+			completed = append(completed, "big-record")
+		}
+		r.Set("big_record_histories", e.nHist.Load()-histBefore)
+		r.Set("big_record_crash_images", e.nImg1.Load()+e.nImg2.Load()-imgBefore)
+		r.Set("big_record_crash_points_with_big_segment_as_tail", e.nBigTail.Load())
+		r.Set("big_record_crash_points_with_big_segment_not_tail", e.nBigNonTail.Load())
+		if allDone {
+			r.Sanity(e.nBigTail.Load() > 0 && e.nBigNonTail.Load() > 0, "big-record family vacuous: tail=%d non-tail=%d", e.nBigTail.Load(), e.nBigNonTail.Load())
+		}
+	} else {
+		allDone = false
+	}
+	r.Set("wall_s_by_part", map[string]float64{"exhaustive_phases": tPhases.Sub(tStart).Seconds(), "long_rotation": tLong.Sub(tPhases).Seconds(), "big_record": time.Since(tLong).Seconds()})
 	var windows []string
 	e.windows.Range(func(k, _ interface{}) bool { windows = append(windows, k.(string)); return true })
 	sort.Strings(windows)
